@@ -87,6 +87,7 @@ type pathState struct {
 	monitorOn  bool
 	cached     map[*value]bool
 	cachedMaps map[*omap]bool
+	stubs      map[string]value
 	panicLoc   string
 	panicNoted bool
 	dom        map[*smt.Term]*byteDom
